@@ -48,5 +48,5 @@ PLAN = dict(
                              "c:proper", "c:arbitrary", "c:extremal-words", "c:allmax-words", "c:proper-extremal",
                              "shape:0", "shape:1", "shape:2", "value:INT64_MIN", "value:INT64_MAX", "value:+-(Q-1)/2",
                              "lift:constructed", "lift:arbitrary-lanes", "lane-rep:0", "lane-rep:1", "lane-rep:2", "lane-rep:3",
-                             "blocks", "blocks:nrows>1"]),
+                             "blocks", "blocks:nrows>1", "blocks:nrows>=8"]),
 )
